@@ -249,7 +249,8 @@ def restrictions(dec, m, fid, fp):
                     if idx_ok is not None and it.values[0] not in idx_ok:
                         out.append(C.V('C17.restriction_not_enforced', dict(fp, aspect='index_type'), got=it.values))
                     sp = o.attrs.get('SPACING')
-                    if sp is None or not sp.values:
+                    nrows = len(lf.frames[tuple(o.name)].rows) if tuple(o.name) in lf.frames else 0
+                    if (sp is None or not sp.values) and nrows > 1:     # (one row: uniformity is vacuous, no spacing exists)
                         out.append(C.V('C17.restriction_not_enforced', dict(fp, aspect='uniform_spacing'), frame=o.name[2]))
         for c, n in frames_of.items():
             if n != 1:
